@@ -679,6 +679,44 @@ def reparse_noreduce_check(ia, ib, T):
              'replay': {'kind': 'reparse_noreduce', 'a': ia, 'b': ib, 'T': T}}]
 
 
+def trace_reuse_check(ia, ib, t):
+    """The step trace is part of what a solver reports (EquationSolver.TimeSeriesStepTrace): a solver that traced
+    block a, was re-parsed with block b and solved twice with the trace on must hold exactly the trace a fresh
+    solver holds after one traced solve of block b - same variables (no remnants of block a), same lengths (no
+    accumulation over re-solves), same values.  Implementation only; compared only when every solve succeeds."""
+    from sfc_models.equation_solver import EquationSolver
+
+    def tr(s):
+        return sorted((k, [float(x).hex() for x in v]) for k, v in s.TimeSeriesStepTrace.items())
+    try:
+        f = EquationSolver()
+        f.ParseString(BLOCKS[ib])
+        f.TraceStep = t
+        f.SolveEquation()
+        want = tr(f)
+        s = EquationSolver()
+        s.ParseString(BLOCKS[ia])
+        s.TraceStep = t
+        s.SolveEquation()
+        s.ParseString(BLOCKS[ib])
+        s.TraceStep = t
+        s.SolveEquation()
+        s.SolveEquation()
+        got = tr(s)
+    except Exception:  # noqa  (a block that does not solve: nothing to compare)
+        return [], False
+    if not any(k not in ('iteration', 'iteration_error', 'iteration_abs_change') for k, _ in want):
+        return [], False   # the traced step is not reached in block b: the holder is simply not rewritten (not compared)
+    if got == want:
+        return [], True
+    gl = [(k, len(v)) for k, v in got]
+    wl = [(k, len(v)) for k, v in want]
+    return [{'key': 'trace:reuse-remnants',
+             'what': 'step trace (TraceStep=%d) after tracing block %r, re-parsing with block %r and solving twice has series %r; '
+                     'a fresh solver tracing that block once has %r' % (t, BLOCKS[ia], BLOCKS[ib], gl, wl),
+             'replay': {'kind': 'trace_reuse', 'a': ia, 'b': ib, 't': t}}], True
+
+
 def replay_interleaved(r):
     import gen_common as G
 
@@ -829,6 +867,14 @@ def run(ctx):
     for _ in range(ctx.scale(40, 400)):
         out.failures.extend(reparse_noreduce_check(ctx.rng.choice(GOOD_BLOCKS), ctx.rng.choice(GOOD_BLOCKS), ctx.rng.choice([2, 3, 5])))
         stats['reparse_without_reduction'] = stats.get('reparse_without_reduction', 0) + 1
+    trace_compared = 0
+    for _ in range(ctx.scale(30, 300)):
+        tf, cmpd = trace_reuse_check(ctx.rng.choice(GOOD_BLOCKS), ctx.rng.choice(GOOD_BLOCKS), ctx.rng.choice([1, 2, 3]))
+        out.failures.extend(tf)
+        trace_compared += 1 if cmpd else 0
+    if trace_compared < 10:
+        out.failures.append({'key': 'trace:reuse-too-few', 'what': 'only %d trace-reuse comparisons ran' % trace_compared,
+                             'replay': {'kind': 'obligation', 'name': 'trace_reuse_check coverage'}})
     ifails, icount = interleaved_oracle(ctx.rng, ctx.scale(40, 600))
     out.failures.extend(ifails)
     sfails, scount = steady_oracle(ctx.rng, ctx.scale(15, 200))
@@ -872,6 +918,8 @@ def replay(path):
         sc = r['scenario']
         prefetch(scenario_refs(sc)[1])
         fails = judge_scenario(sc, run_scenario(sc))
+    elif r.get('kind') == 'trace_reuse':
+        fails = trace_reuse_check(r['a'], r['b'], r['t'])[0]
     elif r.get('kind') == 'reparse_noreduce':
         fails = reparse_noreduce_check(r['a'], r['b'], r['T'])
     elif r.get('kind') == 'history':
